@@ -84,15 +84,15 @@ def enum_int(v):
 
 def intify(ev: ConstEval, e):
     """Copy of e with references to integer enum members replaced by their values."""
-    import copy as _copy
+    from .c05 import clone
 
-    class T(ast.NodeTransformer):
-        def visit_Attribute(self, n):
+    def leaf(n):
+        if isinstance(n, ast.Attribute):
             v = ev.ev(n)
             if isinstance(v, EnumVal) and isinstance(v.value, int):
                 return ast.copy_location(ast.Constant(value=v.value), n)
-            return self.generic_visit(n)
-    return T().visit(_copy.deepcopy(e))
+        return None
+    return clone(e, leaf)
 
 
 class SocksParse:
